@@ -1,9 +1,813 @@
-//! Stream `lex` (stub: filled in by the owner of this stream).
+//! Stream `lex` — C12 "no query text can crash or hang the embedding process".
+//!
+//! Stateless lines; query text travels as the lowercase hex of its UTF-8 bytes (`-` = empty).
+//!
+//!   lex gql <hex>               CORRESPONDENCE with `Model/Lex.lean`: the real GQL lexer's token list
+//!                               `class:start-end,…` (byte offsets); `panic` on unwind; `,runaway`
+//!                               appended when no `eof` arrived within 10000 tokens
+//!   lex gql.ok <hex>            `no-panic` / `panic` for the same lexer loop
+//!   lex run <lang> <db> <hex>   EXPLORATION (search, not proof): the whole front end
+//!                               lang ∈ gql|cypher|gremlin|graphql|sparql, db ∈ empty|small.
+//!                               Executed in a CHILD PROCESS (`vh run` fed one `lex run1 …` line),
+//!                               because a stack overflow or an allocation failure aborts the process
+//!                               and cannot be caught: `returned` (Ok or Err), `panic` (unwound),
+//!                               `abort` (child died: signal / non-zero exit), `timeout` (> 20 s, killed)
+//!   lex run1 <lang> <db> <hex>  the in-process half of `run` (what the child executes)
+//!
+//! Token classes: the Debug name of `TokenKind` — Eof→eof, Error→error, String→string,
+//! QuotedIdentifier→qident, Parameter→param, Integer→int, Float→float; every other kind is `word`
+//! when the token text starts with an ASCII letter or `_` (identifiers and keywords) and `punct`
+//! otherwise (operators and punctuation).
 #![allow(unused)]
 use crate::util::*;
+use grafeo_adapters::query::gql::Lexer;
+use grafeo_common::types::Value;
+use grafeo_engine::database::GrafeoDB;
+use std::io::{Read, Write};
+use std::process::{Command, Stdio};
+use std::time::{Duration, Instant};
 
-pub fn generate(_seed: u64, _cases: usize, _out: &mut Vec<String>) {}
+const MAX_TOKENS: usize = 10_000;
+const WATCHDOG: Duration = Duration::from_secs(20);
+/// address-space cap of the child in KiB (`ulimit -v`): an allocation blow-up aborts the child
+/// instead of exhausting the machine
+const CHILD_VMEM_KIB: u64 = 16 * 1024 * 1024;
 
-pub fn run(_args: &[&str]) -> String {
-    "bad-op".into()
+pub const LANGS: [&str; 5] = ["gql", "cypher", "gremlin", "graphql", "sparql"];
+
+fn hex_arg(s: &str) -> String {
+    if s.is_empty() { "-".to_string() } else { hex(s.as_bytes()) }
+}
+
+fn text_arg(h: &str) -> Option<String> {
+    String::from_utf8(unhex(h)?).ok()
+}
+
+// ------------------------------------------------------------------------------- implementation
+
+fn class_of(kind: &str, text: &str) -> &'static str {
+    match kind {
+        "Eof" => "eof",
+        "Error" => "error",
+        "String" => "string",
+        "QuotedIdentifier" => "qident",
+        "Parameter" => "param",
+        "Integer" => "int",
+        "Float" => "float",
+        _ => match text.chars().next() {
+            Some(c) if c.is_ascii_alphabetic() || c == '_' => "word",
+            _ => "punct",
+        },
+    }
+}
+
+/// the real lexer, driven to `Eof` (or to the token cap)
+fn lex_gql(text: &str) -> String {
+    let mut lx = Lexer::new(text);
+    let mut out: Vec<String> = Vec::new();
+    let mut ended = false;
+    for _ in 0..MAX_TOKENS {
+        let t = lx.next_token();
+        let kind = format!("{:?}", t.kind);
+        out.push(format!("{}:{}-{}", class_of(&kind, &t.text), t.span.start, t.span.end));
+        if kind == "Eof" {
+            ended = true;
+            break;
+        }
+    }
+    if !ended {
+        out.push("runaway".to_string());
+    }
+    out.join(",")
+}
+
+fn small_db(db: &GrafeoDB) {
+    let alice = db.create_node_with_props(
+        &["Person"],
+        vec![("name", Value::from("Alice")), ("age", Value::Int64(30)), ("score", Value::Float64(1.5))],
+    );
+    let bob = db.create_node_with_props(
+        &["Person", "Employee"],
+        vec![("name", Value::from("Bob")), ("age", Value::Int64(25)), ("score", Value::Float64(-2.25))],
+    );
+    let paris = db.create_node_with_props(
+        &["City"],
+        vec![("name", Value::from("Paris")), ("pop", Value::Int64(2_100_000)), ("lat", Value::Float64(48.85))],
+    );
+    db.create_edge(alice, bob, "KNOWS");
+    db.create_edge(alice, paris, "LIVES_IN");
+    // the SPARQL front end reads the RDF store: give it three triples as well
+    let s = db.session();
+    let _ = s.execute_sparql(
+        "INSERT DATA { <http://ex/alice> <http://ex/knows> <http://ex/bob> . \
+         <http://ex/alice> <http://ex/age> 30 . <http://ex/bob> <http://ex/name> \"Bob\" }",
+    );
+}
+
+/// in-process execution of one front end; `returned` whether the engine answered Ok or Err
+fn run1(lang: &str, dbk: &str, text: &str) -> String {
+    guarded(|| {
+        let db = GrafeoDB::new_in_memory();
+        if dbk == "small" {
+            small_db(&db);
+        }
+        let s = db.session();
+        let ok = match lang {
+            "gql" => s.execute(text).is_ok(),
+            "cypher" => s.execute_cypher(text).is_ok(),
+            "gremlin" => s.execute_gremlin(text).is_ok(),
+            "graphql" => s.execute_graphql(text).is_ok(),
+            "sparql" => s.execute_sparql(text).is_ok(),
+            _ => return "bad-op".to_string(),
+        };
+        let _ = ok;
+        "returned".to_string()
+    })
+}
+
+/// run one `lex run1 …` line in a child `vh run` with a watchdog
+fn run_child(lang: &str, dbk: &str, h: &str) -> String {
+    let exe = match std::env::current_exe() {
+        Ok(p) => p,
+        Err(_) => return "spawn-failed".to_string(),
+    };
+    let line = format!("lex run1 {} {} {}\n", lang, dbk, h);
+    // `sh -c 'ulimit -v …; exec vh run'` caps the child's memory; plain spawn if there is no sh
+    let spawn = |with_sh: bool| {
+        let mut c = if with_sh {
+            let mut c = Command::new("sh");
+            c.arg("-c").arg(format!("ulimit -v {} 2>/dev/null; exec \"$0\" run", CHILD_VMEM_KIB)).arg(&exe);
+            c
+        } else {
+            let mut c = Command::new(&exe);
+            c.arg("run");
+            c
+        };
+        c.stdin(Stdio::piped()).stdout(Stdio::piped()).stderr(Stdio::null()).spawn()
+    };
+    let mut child = match spawn(true).or_else(|_| spawn(false)) {
+        Ok(c) => c,
+        Err(_) => return "spawn-failed".to_string(),
+    };
+    if let Some(mut si) = child.stdin.take() {
+        let _ = si.write_all(line.as_bytes());
+        // dropping `si` closes the pipe: the child sees end of input after this one line
+    }
+    let t0 = Instant::now();
+    let status = loop {
+        match child.try_wait() {
+            Ok(Some(st)) => break Some(st),
+            Ok(None) => {
+                if t0.elapsed() > WATCHDOG {
+                    let _ = child.kill();
+                    let _ = child.wait();
+                    break None;
+                }
+                std::thread::sleep(Duration::from_millis(1));
+            }
+            Err(_) => {
+                let _ = child.kill();
+                let _ = child.wait();
+                return "wait-failed".to_string();
+            }
+        }
+    };
+    let st = match status {
+        None => return "timeout".to_string(),
+        Some(st) => st,
+    };
+    if !st.success() {
+        return "abort".to_string();
+    }
+    let mut outp = String::new();
+    if let Some(mut so) = child.stdout.take() {
+        let _ = so.read_to_string(&mut outp);
+    }
+    match outp.lines().next().map(|l| l.trim()) {
+        Some("returned") => "returned".to_string(),
+        Some("panic") => "panic".to_string(),
+        Some(other) => format!("child-said:{}", other.replace(char::is_whitespace, "_")),
+        None => "abort".to_string(),
+    }
+}
+
+pub fn run(args: &[&str]) -> String {
+    match args {
+        ["gql", h] => match text_arg(h) {
+            Some(t) => guarded(|| lex_gql(&t)),
+            None => "bad-op".into(),
+        },
+        ["gql.ok", h] => match text_arg(h) {
+            Some(t) => {
+                if guarded(|| lex_gql(&t)) == "panic" {
+                    "panic".into()
+                } else {
+                    "no-panic".into()
+                }
+            }
+            None => "bad-op".into(),
+        },
+        ["run", lang, dbk, h] => {
+            if !LANGS.contains(lang) || !["empty", "small"].contains(dbk) || text_arg(h).is_none() {
+                return "bad-op".into();
+            }
+            run_child(lang, dbk, h)
+        }
+        ["run1", lang, dbk, h] => match text_arg(h) {
+            Some(t) if LANGS.contains(lang) && ["empty", "small"].contains(dbk) => {
+                // a thread with a fixed 8 MiB stack, so that the outcome does not depend on `ulimit -s`
+                let (lang, dbk) = (lang.to_string(), dbk.to_string());
+                std::thread::Builder::new()
+                    .stack_size(8 << 20)
+                    .spawn(move || run1(&lang, &dbk, &t))
+                    .map(|h| h.join().unwrap_or_else(|_| "panic".to_string()))
+                    .unwrap_or_else(|_| "spawn-failed".to_string())
+            }
+            _ => "bad-op".into(),
+        },
+        _ => "bad-op".into(),
+    }
+}
+
+// ------------------------------------------------------------------------------------ generator
+
+/// every kind of Unicode White_Space (`char::is_whitespace`)
+const WS: &[char] = &[
+    '\u{9}', '\u{A}', '\u{B}', '\u{C}', '\u{D}', ' ', '\u{85}', '\u{A0}', '\u{1680}', '\u{2000}', '\u{2001}',
+    '\u{2002}', '\u{2003}', '\u{2004}', '\u{2005}', '\u{2006}', '\u{2007}', '\u{2008}', '\u{2009}', '\u{200A}',
+    '\u{2028}', '\u{2029}', '\u{202F}', '\u{205F}', '\u{3000}',
+];
+
+/// things that look like whitespace or letters but are neither for the lexer, plus controls
+const ODD: &[&str] = &[
+    "é", "ß", "漢", "😀", "\u{0}", "\u{1}", "\u{1b}", "\u{7f}", "\u{200B}", "\u{FEFF}", "\u{301}", "\u{180E}",
+    "\u{80}", "\u{7FF}", "\u{800}", "\u{FFFF}", "\u{10000}", "\u{10FFFF}", "Ω", "٣", "\u{A0}", "\u{2028}",
+];
+
+const LEX_FRAGS: &[&str] = &[
+    // keywords / identifiers
+    "MATCH", "match", "RETURN", "WHERE", "AND", "OR", "NOT", "INSERT", "DELETE", "SET", "AS", "ORDER", "BY", "LIMIT",
+    "NULL", "TRUE", "IN", "IS", "CASE", "END", "EXISTS", "UNWIND", "VECTOR", "n", "x1", "_", "_a9", "Person", "a_b",
+    "MATCHx", "é", "ß", "漢", "😀", "né", "éa", "a漢b", "x😀", "Ωmega",
+    // numbers
+    "0", "1", "42", "007", "1.5", "1..2", "1.", ".5", "1.5.2", "1e5", "9223372036854775808", "1.é", "1.5é", "1_0",
+    // operators, every multi-character one and its prefixes
+    "(", ")", "[", "]", "{", "}", ":", ",", ".", "+", "*", "/", "%", "=", "<", ">", "-", "|", "<>", "<=", "<-", ">=",
+    "->", "--", "||", "<--", "-->", "<->", "|||", "!", "&", "^", "~", "?", "@", "#", ";", "\\",
+    // strings
+    "'abc'", "\"abc\"", "''", "'", "\"", "'abc", "\"abc", "'a\\'b'", "'a\\", "\"a\\", "'é'", "'é", "'\\é", "'a\"b'",
+    "\"a'b\"", "'😀\\",
+    // backticks
+    "`a`", "`a b`", "``", "`", "`a", "`a``b`", "`a``", "````", "`é`", "`é",
+    // parameters
+    "$", "$1", "$a", "$_a1", "$é", "$$", "$a$b",
+    // NUL
+    "\u{0}", "a\u{0}b",
+];
+
+fn lex_string(r: &mut Rng) -> String {
+    let n = r.below(13);
+    let mut s = String::new();
+    for _ in 0..n {
+        match r.below(10) {
+            0 | 1 => s.push(*r.pick(WS)),
+            2 => s.push_str(*r.pick(ODD)),
+            _ => s.push_str(*r.pick(LEX_FRAGS)),
+        }
+        // fragments mostly touch each other (token boundaries without a separator)
+        if r.chance(1, 3) {
+            s.push(if r.chance(3, 4) { ' ' } else { *r.pick(WS) });
+        }
+    }
+    s
+}
+
+fn emit_lex(out: &mut Vec<String>, s: &str) {
+    out.push(format!("lex gql {}", hex_arg(s)));
+    out.push(format!("lex gql.ok {}", hex_arg(s)));
+}
+
+/// every proper prefix that ends on a character boundary
+fn emit_all_truncations(out: &mut Vec<String>, s: &str) {
+    for (i, _) in s.char_indices() {
+        out.push(format!("lex gql {}", hex_arg(&s[..i])));
+    }
+}
+
+// ---- query grammars ---------------------------------------------------------------------------
+
+const LABELS: &[&str] = &["Person", "City", "Employee", "Nope", "`rdf:type`"];
+const PROPS: &[&str] = &["name", "age", "score", "pop", "lat", "missing"];
+const RELS: &[&str] = &["KNOWS", "LIVES_IN", "NOPE"];
+const INTS: &[&str] = &[
+    "0", "1", "2", "-1", "30", "9223372036854775807", "-9223372036854775808", "9223372036854775808",
+    "18446744073709551616", "99999999999999999999999999", "007", "4294967296",
+];
+const FLOATS: &[&str] = &["1.5", "0.0", "-0.0", "1e308", "1.7976931348623157e309", "0.1"];
+const STRS: &[&str] = &["'Alice'", "'Bob'", "''", "'é'", "\"x\"", "'a\\'b'", "'%'"];
+
+/// arithmetic on extreme literals (the expression evaluators' panic candidates)
+const EXTREME: &[&str] = &[
+    "9223372036854775807 + 1",
+    "1 / 0",
+    "5 % 0",
+    "-9223372036854775808 / -1",
+    "-9223372036854775808 % -1",
+    "-9223372036854775807 - 2",
+    "9223372036854775807 * 2",
+    "- -9223372036854775808",
+    "0 - -9223372036854775808",
+    "1.0 / 0",
+    "0.0 / 0.0",
+    "1 % 0.0",
+    "n.age / 0",
+    "n.age % 0",
+    "n.age + 9223372036854775807",
+    "n.age * 9223372036854775807",
+];
+
+/// out-of-range list indexes / slices
+const INDEXES: &[&str] = &[
+    "[1, 2, 3][3]",
+    "[1, 2, 3][-1]",
+    "[1, 2, 3][-4]",
+    "[1, 2, 3][9223372036854775807]",
+    "[1, 2, 3][-9223372036854775808]",
+    "[][0]",
+    "[1, 2, 3][1..9]",
+    "[1, 2, 3][5..2]",
+    "[1, 2, 3][-9..]",
+    "[1, 2, 3][null]",
+    "[1, 2, 3]['a']",
+    "[1, 2, 3][1.5]",
+];
+
+fn cy_atom(r: &mut Rng) -> String {
+    match r.below(12) {
+        0 | 1 => r.pick(INTS).to_string(),
+        2 => r.pick(FLOATS).to_string(),
+        3 => r.pick(STRS).to_string(),
+        4 | 5 | 6 => format!("n.{}", r.pick(PROPS)),
+        7 => (*r.pick(&["NULL", "TRUE", "FALSE", "null", "true"])).to_string(),
+        8 => format!("[{}, {}]", r.pick(INTS), r.pick(STRS)),
+        9 => (*r.pick(&["$p", "$missing", "n", "x"])).to_string(),
+        10 => format!("{}({})", r.pick(&["count", "sum", "avg", "min", "max", "collect", "abs", "toString", "size", "type", "id", "labels", "nope"]), if r.chance(1, 2) { format!("n.{}", r.pick(PROPS)) } else { "n".to_string() }),
+        _ => format!("CASE WHEN n.age > {} THEN {} ELSE {} END", r.pick(INTS), r.pick(STRS), r.pick(INTS)),
+    }
+}
+
+fn cy_expr(r: &mut Rng, depth: u32) -> String {
+    if depth == 0 || r.chance(1, 3) {
+        return cy_atom(r);
+    }
+    match r.below(8) {
+        0 => format!("({})", cy_expr(r, depth - 1)),
+        1 => format!("-{}", cy_expr(r, depth - 1)),
+        2 => format!("NOT {}", cy_expr(r, depth - 1)),
+        _ => format!(
+            "{} {} {}",
+            cy_expr(r, depth - 1),
+            r.pick(&["+", "-", "*", "/", "%", "=", "<>", "<", "<=", ">", ">=", "AND", "OR", "IN", "STARTS WITH", "CONTAINS", "||"]),
+            cy_expr(r, depth - 1)
+        ),
+    }
+}
+
+fn cy_pred(r: &mut Rng) -> String {
+    match r.below(6) {
+        0 => format!("n.{} IS NULL", r.pick(PROPS)),
+        1 => format!("n.{} IS NOT NULL", r.pick(PROPS)),
+        2 => format!("n.{} IN [{}, {}]", r.pick(PROPS), r.pick(INTS), r.pick(STRS)),
+        3 => format!("NOT (n.{} {} {})", r.pick(PROPS), r.pick(&["=", "<", ">"]), cy_atom(r)),
+        _ => cy_expr(r, 2),
+    }
+}
+
+/// valid (or nearly valid) GQL / Cypher
+fn cypherish(r: &mut Rng, lang: &str) -> String {
+    let l = *r.pick(LABELS);
+    let t = *r.pick(RELS);
+    match r.below(16) {
+        0 => format!("MATCH (n:{}) RETURN {}", l, cy_expr(r, 2)),
+        1 => format!("MATCH (n:{}) WHERE {} RETURN n.{}", l, cy_pred(r), r.pick(PROPS)),
+        2 => format!("MATCH (a)-[e:{}]->(b) RETURN a.name, b.name, e", t),
+        3 => format!("MATCH (a:{})-[:{}*{}]->(b) RETURN b", l, t, r.pick(&["", "2", "1..3", "0..", "..2", "9223372036854775807", "0..18446744073709551616"])),
+        4 => format!("UNWIND [{}, {}, {}] AS x RETURN x", cy_atom(r), cy_atom(r), cy_atom(r)),
+        5 => format!("MATCH (n) RETURN count(n), sum(n.age), avg(n.score), min(n.name), max(n.{}), collect(n.age)", r.pick(PROPS)),
+        6 => format!("MATCH (n:{}) RETURN n.name AS a ORDER BY n.{} {} SKIP {} LIMIT {}", l, r.pick(PROPS), r.pick(&["", "ASC", "DESC"]), r.pick(INTS), r.pick(INTS)),
+        7 => format!("{} (:{} {{name: {}, age: {}}})", if lang == "gql" { "INSERT" } else { "CREATE" }, l, r.pick(STRS), cy_expr(r, 1)),
+        8 => format!("MATCH (n:{}) SET n.{} = {} RETURN n", l, r.pick(PROPS), cy_expr(r, 1)),
+        9 => format!("MATCH (n:{}) DETACH DELETE n", l),
+        10 => format!("MATCH (n:{}) WITH n.age AS a, n WHERE a > {} RETURN a, n.name", l, r.pick(INTS)),
+        11 => format!("MATCH (a:{}) OPTIONAL MATCH (a)-[:{}]->(b) RETURN a, b", l, t),
+        12 => format!("MERGE (n:{} {{name: {}}}) ON CREATE SET n.age = {} RETURN n", l, r.pick(STRS), r.pick(INTS)),
+        13 => format!("MATCH (n) RETURN DISTINCT n.{}, {}", r.pick(PROPS), cy_expr(r, 1)),
+        14 => format!("MATCH (a)<-[:{}]-(b), (a)-[:{}]-(c) WHERE a.age > b.age RETURN *", t, r.pick(RELS)),
+        _ => {
+            if lang == "cypher" {
+                format!("RETURN {}", cy_expr(r, 2))
+            } else {
+                format!("MATCH (n:{}) WHERE EXISTS {{ MATCH (n)-[:{}]->(m) }} RETURN n", l, t)
+            }
+        }
+    }
+}
+
+fn gremlin_q(r: &mut Rng) -> String {
+    let mut s = String::from(*r.pick(&["g.V()", "g.V()", "g.E()", "g.V(0)", "g.V(0, 1, 99)", "g.V(9223372036854775808)", "g.addV('Person')"]));
+    let n = r.below(5);
+    for _ in 0..n {
+        let step = match r.below(24) {
+            0 => format!(".hasLabel('{}')", r.pick(&["Person", "City", "Nope"])),
+            1 => format!(".has('{}', {})", r.pick(PROPS), r.pick(&["'Alice'", "30", "1.5", "true", "-1"])),
+            2 => format!(".has('{}', {}({}))", r.pick(PROPS), r.pick(&["gt", "lt", "gte", "lte", "eq", "neq"]), r.pick(INTS)),
+            3 => format!(".has('{}', P.{}({}))", r.pick(PROPS), r.pick(&["gt", "lt", "within", "between"]), r.pick(INTS)),
+            4 => format!(".has('{}', within('a', 'b', {}))", r.pick(PROPS), r.pick(INTS)),
+            5 => format!(".out('{}')", r.pick(RELS)),
+            6 => format!(".{}()", r.pick(&["out", "in", "both", "outE", "inE", "bothE", "inV", "outV", "otherV"])),
+            7 => format!(".values('{}')", r.pick(PROPS)),
+            8 => format!(".{}()", r.pick(&["count", "sum", "min", "max", "fold", "unfold", "dedup", "path", "id", "label", "valueMap", "elementMap", "drop"])),
+            9 => format!(".limit({})", r.pick(INTS)),
+            10 => format!(".range({}, {})", r.pick(INTS), r.pick(INTS)),
+            11 => format!(".skip({})", r.pick(INTS)),
+            12 => format!(".order().by('{}'{})", r.pick(PROPS), r.pick(&["", ", asc", ", desc", ", shuffle"])),
+            13 => format!(".property('{}', {})", r.pick(PROPS), r.pick(&["'x'", "1", "1.5", "9223372036854775808"])),
+            14 => ".as('a').select('a')".to_string(),
+            15 => format!(".hasId({})", r.pick(INTS)),
+            16 => format!(".hasNot('{}')", r.pick(PROPS)),
+            17 => ".groupCount().by('name')".to_string(),
+            18 => format!(".constant({})", r.pick(&["1", "'c'", "1.5"])),
+            19 => ".addE('KNOWS').from('a').to(g.V().has('name', 'Bob'))".to_string(),
+            20 => format!(".where(out('{}'))", r.pick(RELS)),
+            21 => ".not(out())".to_string(),
+            22 => ".union(out(), in())".to_string(),
+            _ => ".project('a', 'b').by('name').by(out().count())".to_string(),
+        };
+        s.push_str(&step);
+    }
+    s
+}
+
+fn graphql_q(r: &mut Rng) -> String {
+    let ty = *r.pick(&["person", "Person", "city", "user", "nope"]);
+    match r.below(14) {
+        0 => format!("{{ {} {{ name }} }}", ty),
+        1 => format!("query {{ {} {{ name age }} }}", ty),
+        2 => format!("query Q {{ {}(filter: {{ age_gt: {} }}) {{ name }} }}", ty, r.pick(INTS)),
+        3 => format!("{{ {}(name: {}) {{ name knows {{ name knows {{ name }} }} }} }}", ty, r.pick(&["\"Alice\"", "\"\"", "\"é\"", "\"a\\\"b\"", "\"\\u00e9\"", "\"\\uD800\""])),
+        4 => format!("{{ {}(first: {}, skip: {}) {{ id }} }}", ty, r.pick(INTS), r.pick(INTS)),
+        5 => format!("query ($a: Int = {}, $b: [String!]!) {{ {}(age: $a) {{ name }} }}", r.pick(INTS), ty),
+        6 => format!("{{ a: {} {{ name }} b: {} {{ n: name }} }}", ty, ty),
+        7 => format!("{{ {} @include(if: {}) {{ name @skip(if: {}) }} }}", ty, r.pick(&["true", "false", "$x", "1"]), r.pick(&["true", "false"])),
+        8 => format!("query {{ {} {{ ...F }} }} fragment F on Person {{ name age }}", ty),
+        9 => format!("{{ {} {{ ... on Person {{ name }} ...G }} }}", ty),
+        10 => format!("mutation {{ createPerson(name: \"Zed\", age: {}) {{ id name }} }}", r.pick(INTS)),
+        11 => format!("mutation {{ deletePerson(id: {}) }}", r.pick(INTS)),
+        12 => format!("{{ {}(where: {{ age: [{}, [{}]], o: {{ a: {{ b: null }} }}, e: ENUM, f: {} }}) {{ name }} }}", ty, r.pick(INTS), r.pick(INTS), r.pick(FLOATS)),
+        _ => format!("query {{ {} {{ name }} }} query {{ {} {{ age }} }} # comment", ty, ty),
+    }
+}
+
+fn sparql_q(r: &mut Rng) -> String {
+    let filt = match r.below(8) {
+        0 => format!("FILTER(?o > {})", r.pick(INTS)),
+        1 => format!("FILTER(?o + {} = {} / {})", r.pick(INTS), r.pick(INTS), r.pick(INTS)),
+        2 => "FILTER(REGEX(STR(?o), \"^B\", \"i\"))".to_string(),
+        3 => "FILTER(!BOUND(?x) || isIRI(?s) && LANG(?o) = \"\")".to_string(),
+        4 => "FILTER NOT EXISTS { ?s <http://ex/name> ?n }".to_string(),
+        5 => format!("FILTER(?o IN ({}, \"Bob\", <http://ex/bob>))", r.pick(INTS)),
+        6 => format!("BIND({} * ?o AS ?d)", r.pick(INTS)),
+        _ => String::new(),
+    };
+    match r.below(16) {
+        0 => format!("SELECT ?s ?p ?o WHERE {{ ?s ?p ?o {} }}", filt),
+        1 => format!("SELECT * WHERE {{ ?s <http://ex/knows> ?o . ?o <http://ex/name> ?n {} }} LIMIT {} OFFSET {}", filt, r.pick(INTS), r.pick(INTS)),
+        2 => "ASK { ?s ?p ?o }".to_string(),
+        3 => "CONSTRUCT { ?o ?p ?s } WHERE { ?s ?p ?o }".to_string(),
+        4 => "DESCRIBE <http://ex/alice>".to_string(),
+        5 => format!("SELECT ?s WHERE {{ ?s ?p ?o OPTIONAL {{ ?o ?q ?z {} }} }}", filt),
+        6 => "SELECT ?s WHERE { { ?s <http://ex/knows> ?o } UNION { ?s <http://ex/age> ?o } }".to_string(),
+        7 => "SELECT (COUNT(?s) AS ?c) (SUM(?o) AS ?t) (AVG(?o) AS ?a) WHERE { ?s ?p ?o } GROUP BY ?p HAVING (COUNT(?s) > 0)".to_string(),
+        8 => format!("SELECT DISTINCT ?s WHERE {{ ?s ?p ?o }} ORDER BY {}(?s) ?o", r.pick(&["ASC", "DESC"])),
+        9 => format!("SELECT ?s WHERE {{ ?s <http://ex/knows>{} ?o }}", r.pick(&["+", "*", "?", "/<http://ex/name>", "|<http://ex/age>", "{2}", ""])),
+        10 => "PREFIX ex: <http://ex/> SELECT ?o WHERE { ex:alice ex:knows ?o ; ex:age ?a , 30 }".to_string(),
+        11 => format!("INSERT DATA {{ <http://ex/c> <http://ex/age> {} . <http://ex/c> <http://ex/name> \"é\"@fr , \"1\"^^<http://www.w3.org/2001/XMLSchema#integer> }}", r.pick(INTS)),
+        12 => "DELETE DATA { <http://ex/alice> <http://ex/age> 30 }".to_string(),
+        13 => "DELETE { ?s ?p ?o } INSERT { ?o ?p ?s } WHERE { ?s ?p ?o }".to_string(),
+        14 => "SELECT ?s WHERE { VALUES ?s { <http://ex/alice> <http://ex/zed> } { SELECT ?s WHERE { ?s ?p ?o } LIMIT 1 } MINUS { ?s <http://ex/none> ?q } }".to_string(),
+        _ => format!("SELECT ({} AS ?x) WHERE {{ }}", r.pick(&["1/0", "9223372036854775807 + 1", "-9223372036854775808 / -1", "1.0e0 / 0", "\"a\" + 1", "-(-9223372036854775808)"])),
+    }
+}
+
+fn valid_query(r: &mut Rng, lang: &str) -> String {
+    match lang {
+        "gql" | "cypher" => cypherish(r, lang),
+        "gremlin" => gremlin_q(r),
+        "graphql" => graphql_q(r),
+        _ => sparql_q(r),
+    }
+}
+
+/// extreme-literal arithmetic in the place where each language evaluates expressions
+fn extreme_query(r: &mut Rng, lang: &str, i: usize) -> String {
+    let e = EXTREME[i % EXTREME.len()];
+    match lang {
+        "gql" | "cypher" => match r.below(4) {
+            0 => format!("MATCH (n:Person) RETURN {}", e),
+            1 => format!("MATCH (n:Person) WHERE {} > 0 RETURN n.name", e),
+            2 => format!("MATCH (n:Person) WHERE n.age = {} RETURN n", e),
+            _ => {
+                if lang == "cypher" {
+                    format!("RETURN {}", e)
+                } else {
+                    format!("UNWIND [{}] AS x RETURN x", e)
+                }
+            }
+        },
+        "gremlin" => {
+            let big = *r.pick(&["9223372036854775807", "9223372036854775808", "-9223372036854775808", "-9223372036854775809", "18446744073709551616"]);
+            match r.below(4) {
+                0 => format!("g.V().has('age', gt({}))", big),
+                1 => format!("g.V().limit({})", big),
+                2 => format!("g.V().range({}, {})", big, big),
+                _ => format!("g.V().values('age').sum().is({})", big),
+            }
+        }
+        "graphql" => {
+            let big = *r.pick(&["9223372036854775807", "9223372036854775808", "-9223372036854775808", "-9223372036854775809", "1e400", "-0"]);
+            match r.below(3) {
+                0 => format!("{{ person(filter: {{ age_gt: {} }}) {{ name }} }}", big),
+                1 => format!("{{ person(first: {}, skip: {}) {{ name }} }}", big, big),
+                _ => format!("{{ person(age: {}) {{ name }} }}", big),
+            }
+        }
+        _ => {
+            let e = e.replace("n.age", "?o").replace('%', "/");
+            match r.below(3) {
+                0 => format!("SELECT ?s WHERE {{ ?s <http://ex/age> ?o FILTER({} > 0) }}", e),
+                1 => format!("SELECT ({} AS ?x) WHERE {{ ?s <http://ex/age> ?o }}", e),
+                _ => format!("SELECT ?s WHERE {{ ?s <http://ex/age> ?o BIND({} AS ?x) }} LIMIT 9223372036854775808", e),
+            }
+        }
+    }
+}
+
+fn index_query(r: &mut Rng, lang: &str, i: usize) -> String {
+    let e = INDEXES[i % INDEXES.len()];
+    match lang {
+        "gql" | "cypher" => match r.below(3) {
+            0 => format!("MATCH (n:Person) RETURN {}", e),
+            1 => format!("MATCH (n:Person) WHERE {} = 1 RETURN n.name", e),
+            _ => {
+                if lang == "cypher" {
+                    format!("RETURN {}", e)
+                } else {
+                    format!("UNWIND {} AS x RETURN x", e)
+                }
+            }
+        },
+        "gremlin" => format!("g.V().fold().range({}, {})", r.pick(&["-1", "5", "9223372036854775807"]), r.pick(&["-1", "2", "0"])),
+        "graphql" => format!("{{ person(first: {}, skip: {}) {{ name }} }}", r.pick(&["-1", "0", "99"]), r.pick(&["-1", "99", "9223372036854775807"])),
+        _ => format!("SELECT (SUBSTR(\"abc\", {}, {}) AS ?x) WHERE {{ }} LIMIT {} OFFSET {}", r.pick(&["0", "-1", "99", "9223372036854775807"]), r.pick(&["-1", "0", "99"]), r.pick(&["0", "-1"]), r.pick(&["99", "-1"])),
+    }
+}
+
+/// the nesting shapes of each language: (name, opening, core, closing); query = open^d core close^d
+/// wrapped by `wrap`
+pub fn nest_kinds(lang: &str) -> Vec<(&'static str, &'static str, &'static str, &'static str, &'static str, &'static str)> {
+    // (name, prefix, open, core, close, suffix)
+    match lang {
+        "gql" | "cypher" => vec![
+            ("paren", "MATCH (n) RETURN ", "(", "1", ")", ""),
+            ("paren-where", "MATCH (n) WHERE ", "(", "n.age > 1", ")", " RETURN n"),
+            ("list", "MATCH (n) RETURN ", "[", "", "]", ""),
+            ("not-paren", "MATCH (n) WHERE ", "NOT (", "n.age > 1", ")", " RETURN n"),
+            ("not", "MATCH (n) WHERE ", "NOT ", "n.age > 1", "", " RETURN n"),
+            ("neg", "MATCH (n) RETURN ", "- ", "1", "", ""),
+            ("call", "MATCH (n) RETURN ", "abs(", "1", ")", ""),
+            ("map", if lang == "gql" { "INSERT (:X {a: " } else { "CREATE (:X {a: " }, "{a: ", "1", "}", "})"),
+            ("case", "MATCH (n) RETURN ", "CASE WHEN TRUE THEN ", "1", " ELSE 0 END", ""),
+            ("plus-chain", "MATCH (n) RETURN 1", " + 1", "", "", ""),
+            ("and-chain", "MATCH (n) WHERE n.age > 1", " AND n.age > 1", "", "", " RETURN n"),
+            ("path-chain", "MATCH (a)", "-->()", "", "", " RETURN a"),
+        ],
+        "gremlin" => vec![
+            ("paren", "g.V().has('age', ", "(", "1", ")", ")"),
+            ("from", "g.V().addE('K')", ".from(g.V().addE('K')", "", ".to('a'))", ".to('a')"),
+            ("where", "g.V()", ".where(out()", "", ")", ""),
+            ("not", "g.V()", ".not(__", "", ")", ""),
+            ("within", "g.V().has('age', ", "within(", "1", ")", ")"),
+            ("list", "g.V().has('age', within(", "[", "1", "]", "))"),
+            ("step-chain", "g.V()", ".out()", "", "", ""),
+            ("union", "g.V()", ".union(g.V()", "", ")", ""),
+        ],
+        "graphql" => vec![
+            ("selection", "{ person ", "{ knows ", "{ name }", " }", " }"),
+            ("list", "{ person(a: ", "[", "1", "]", ") { name } }"),
+            ("object", "{ person(a: ", "{a: ", "1", "}", ") { name } }"),
+            ("type", "query ($a: ", "[", "Int", "]", ") { person { name } }"),
+            ("inline-fragment", "{ person ", "{ ... on Person ", "{ name }", " }", " }"),
+            ("brace-only", "", "{", "", "}", ""),
+            ("field-chain", "{ person { name", " name", "", "", " } }"),
+        ],
+        _ => vec![
+            ("group", "SELECT * WHERE ", "{ ", "?s ?p ?o", " }", ""),
+            ("paren-filter", "SELECT * WHERE { ?s ?p ?o FILTER", "(", "1", ")", " }"),
+            ("not-filter", "SELECT * WHERE { ?s ?p ?o FILTER(", "!(", "true", ")", ") }"),
+            ("optional", "SELECT * WHERE { ?s ?p ?o ", "OPTIONAL { ?s ?p ?o ", "", "}", " }"),
+            ("subquery", "SELECT * WHERE ", "{ SELECT * WHERE ", "{ ?s ?p ?o }", " }", ""),
+            ("path-paren", "SELECT * WHERE { ?s ", "(", "<http://ex/knows>", ")", " ?o }"),
+            ("collection", "SELECT * WHERE { ?s ?p ", "(", "1", ")", " }"),
+            ("bnode", "SELECT * WHERE { ?s ?p ", "[ <http://ex/p> ", "1", " ]", " }"),
+            ("call", "SELECT (", "STR(", "1", ")", " AS ?x) WHERE { }"),
+            ("neg", "SELECT (", "- ", "1", "", " AS ?x) WHERE { }"),
+            ("plus-chain", "SELECT (1", " + 1", "", "", " AS ?x) WHERE { }"),
+            ("union-chain", "SELECT * WHERE { { ?s ?p ?o }", " UNION { ?s ?p ?o }", "", "", " }"),
+        ],
+    }
+}
+
+pub const DEPTHS: [usize; 5] = [1, 10, 100, 1000, 5000];
+
+fn nested(kind: &(&str, &str, &str, &str, &str, &str), d: usize) -> String {
+    let (_, pre, open, core, close, suf) = *kind;
+    let mut s = String::with_capacity(pre.len() + d * (open.len() + close.len()) + core.len() + suf.len());
+    s.push_str(pre);
+    for _ in 0..d {
+        s.push_str(open);
+    }
+    s.push_str(core);
+    for _ in 0..d {
+        s.push_str(close);
+    }
+    s.push_str(suf);
+    s
+}
+
+/// pieces: maximal runs of [A-Za-z0-9_], single other characters (whitespace kept as pieces)
+fn pieces(q: &str) -> Vec<String> {
+    let mut v: Vec<String> = Vec::new();
+    let mut cur = String::new();
+    for c in q.chars() {
+        if c.is_ascii_alphanumeric() || c == '_' {
+            cur.push(c);
+        } else {
+            if !cur.is_empty() {
+                v.push(std::mem::take(&mut cur));
+            }
+            v.push(c.to_string());
+        }
+    }
+    if !cur.is_empty() {
+        v.push(cur);
+    }
+    v
+}
+
+fn mutate(r: &mut Rng, q: &str) -> String {
+    let mut p = pieces(q);
+    let solid: Vec<usize> = (0..p.len()).filter(|&i| !p[i].trim().is_empty()).collect();
+    if solid.is_empty() {
+        return (*r.pick(ODD)).to_string();
+    }
+    match r.below(6) {
+        0 => {
+            // drop a token
+            let i = *r.pick(&solid);
+            p.remove(i);
+        }
+        1 => {
+            // duplicate a token
+            let i = *r.pick(&solid);
+            let t = p[i].clone();
+            p.insert(i, t);
+        }
+        2 => {
+            // swap two tokens
+            let i = *r.pick(&solid);
+            let j = *r.pick(&solid);
+            p.swap(i, j);
+        }
+        3 => {
+            // truncate at a random byte that is a character boundary
+            let s = p.concat();
+            let cuts: Vec<usize> = s.char_indices().map(|(i, _)| i).collect();
+            let c = *r.pick(&cuts);
+            return s[..c].to_string();
+        }
+        4 => {
+            // inject a non-ASCII / control character at a token boundary
+            let i = r.below(p.len() as u64 + 1) as usize;
+            p.insert(i, (*r.pick(ODD)).to_string());
+        }
+        _ => {
+            // replace a token by an odd one (non-ASCII inside the token stream)
+            let i = *r.pick(&solid);
+            p[i] = match r.below(4) {
+                0 => (*r.pick(ODD)).to_string(),
+                1 => format!("{}{}", p[i], r.pick(ODD)),
+                2 => (*r.pick(LEX_FRAGS)).to_string(),
+                _ => r.pick(WS).to_string(),
+            };
+        }
+    }
+    p.concat()
+}
+
+fn emit_run(out: &mut Vec<String>, lang: &str, db: &str, q: &str) {
+    out.push(format!("lex run {} {} {}", lang, db, hex_arg(q)));
+}
+
+pub fn generate(seed: u64, cases: usize, out: &mut Vec<String>) {
+    let mut r = Rng::new(seed ^ 0x6c6578);
+    let dbs = ["empty", "small"];
+
+    // ---- fixed prelude: lexer (each string followed by all of its truncations) ----
+    out.push(format!("# case fixed-lex seed {}", seed));
+    let fixed_lex = [
+        "",
+        "MATCH (é)",
+        "MATCH (n:Pérson)\u{A0}RETURN\u{2003}n.é",
+        "RETURN 1..2, 1.5, 1., .5 <> <= <- >= -> -- || | <",
+        "x = 'é\\",
+        "`a``b` `漢` `unterminated",
+        "$ $1 $a $é 😀\u{0}a\u{85}b\u{3000}",
+        "'a\\'b' \"q\\\"q\" 'open",
+    ];
+    for s in fixed_lex.iter() {
+        emit_lex(out, s);
+        emit_all_truncations(out, s);
+    }
+    // every multi-character operator and every prefix of one at the very end of the input
+    for op in ["<>", "<=", "<-", ">=", "->", "--", "||", "<", ">", "-", "|", "1.", "1.5", "1..", "$", "'", "\"", "`", "'\\", "``", "a"] {
+        emit_lex(out, &format!("a {}", op));
+        emit_lex(out, op);
+    }
+    for w in WS.iter() {
+        emit_lex(out, &format!("a{}b{}", w, w));
+    }
+
+    // ---- fixed prelude: front ends ----
+    out.push(format!("# case fixed-run seed {}", seed));
+    for lang in LANGS.iter() {
+        for db in dbs.iter() {
+            emit_run(out, lang, db, "");
+        }
+        let basic = match *lang {
+            "gql" | "cypher" => "MATCH (n:Person) WHERE n.age > 26 RETURN n.name",
+            "gremlin" => "g.V().hasLabel('Person').has('age', gt(26)).values('name')",
+            "graphql" => "{ person(filter: { age_gt: 26 }) { name } }",
+            _ => "SELECT ?s ?o WHERE { ?s <http://ex/knows> ?o }",
+        };
+        emit_run(out, lang, "small", basic);
+        emit_run(out, lang, "empty", basic);
+    }
+    for lang in ["gql", "cypher"] {
+        for e in ["9223372036854775807 + 1", "1 / 0", "5 % 0", "-9223372036854775808 / -1"] {
+            emit_run(out, lang, "small", &format!("MATCH (n:Person) RETURN {}", e));
+            emit_run(out, lang, "small", &format!("MATCH (n:Person) WHERE {} > 0 RETURN n.name", e));
+        }
+    }
+
+    // ---- generated cases ----
+    for c in 0..cases {
+        out.push(format!("# case {} seed {}", c, seed));
+        // lexer: one string, the verdict line, four truncations (all of them every 8th case)
+        let s = lex_string(&mut r);
+        emit_lex(out, &s);
+        if c % 8 == 0 {
+            emit_all_truncations(out, &s);
+        } else {
+            let cuts: Vec<usize> = s.char_indices().map(|(i, _)| i).collect();
+            for _ in 0..4 {
+                let cut = if cuts.is_empty() { 0 } else { *r.pick(&cuts) };
+                out.push(format!("lex gql {}", hex_arg(&s[..cut])));
+            }
+        }
+
+        // front ends: 8 lines for one language
+        let lang = LANGS[c % LANGS.len()];
+        let round = c / LANGS.len();
+        let q = valid_query(&mut r, lang);
+        emit_run(out, lang, dbs[r.below(2) as usize], &q);
+        for _ in 0..3 {
+            let base = if r.chance(1, 2) { q.clone() } else { valid_query(&mut r, lang) };
+            let mut m = mutate(&mut r, &base);
+            if r.chance(1, 4) {
+                m = mutate(&mut r, &m);
+            }
+            emit_run(out, lang, dbs[r.below(2) as usize], &m);
+        }
+        let xq = extreme_query(&mut r, lang, round);
+        emit_run(out, lang, "small", &xq);
+        let iq = index_query(&mut r, lang, round);
+        emit_run(out, lang, dbs[r.below(2) as usize], &iq);
+        let kinds = nest_kinds(lang);
+        for j in 0..2 {
+            let k = round * 2 + j;
+            let kind = &kinds[k % kinds.len()];
+            let d = DEPTHS[(k / kinds.len()) % DEPTHS.len()];
+            emit_run(out, lang, dbs[(k / (kinds.len() * DEPTHS.len())) % 2], &nested(kind, d));
+        }
+    }
 }
